@@ -140,6 +140,10 @@ func init() {
 			sc.Clients = append(sc.Clients, ops)
 		}
 		ex := defaultExplore(seed, 0, 0)
+		if r.Chance(0.3) {
+			// statement errors, lost connections and deadlock errors inside the reads (and the racing writer)
+			ex = defaultExplore(seed, 0.04, 3, FStmtErr, FConnLost, FDeadlock)
+		}
 		ex.PreemptP = 0.5
 		return sc, ex
 	}})
@@ -203,8 +207,8 @@ func checkPITReads(r *runner) []Violation {
 		return ""
 	}
 	for _, or := range r.results {
-		if or.Op.Kind != KRaw || or.Op.Raw == nil || or.Op.Raw.Method != "GET" || or.Out.Class != "ok" || len(or.Faults) > 0 {
-			continue
+		if or.Op.Kind != KRaw || or.Op.Raw == nil || or.Op.Raw.Method != "GET" || or.Out.Class != "ok" {
+			continue // (an answered read is judged even if a fault struck it: a fault may cost an answer, not falsify it)
 		}
 		path, query, _ := strings.Cut(or.Op.Raw.Path, "?")
 		parts := strings.Split(strings.Trim(path, "/"), "/")
